@@ -1527,6 +1527,115 @@ fn neighbourhood(h: &History) -> Vec<History> {
     out
 }
 
+// ---------------------------------------------------------------------------------------------
+// shape of std/dict.qv: regenerated table vs the table the model was written against
+// ---------------------------------------------------------------------------------------------
+/// Rows of a `DictShape.lean` file: (section.name#occurrence, normalised row text), in file order,
+/// plus the two hash constants.
+fn shape_rows(text: &str) -> Vec<(String, String)> {
+    let mut rows = vec![];
+    let mut section = "types";
+    let mut seen: HashMap<String, usize> = HashMap::new();
+    for line in text.lines() {
+        let t = line.trim();
+        if t.starts_with("defs :=") {
+            section = "defs";
+        } else if t.starts_with("exports :=") {
+            section = "exports";
+        }
+        let body = t.split("  -- ").next().unwrap_or(t).trim().trim_end_matches(',').trim();
+        let name = if let Some(rest) = body.strip_prefix("{ name := \"") {
+            rest.split('"').next().map(|s| s.to_string())
+        } else if section == "types" && body.starts_with("(\"") {
+            body[2..].split('"').next().map(|s| format!("'{s}"))
+        } else if let Some(rest) = body.strip_prefix("def ") {
+            // def hashOffset32 / modelHashOffset32 : Nat := N
+            let n = rest.split_whitespace().next().unwrap_or("");
+            let low = n.trim_start_matches("model").to_lowercase();
+            if low.starts_with("hash") {
+                rows.push((format!("const.{low}"), body.rsplit(":=").next().unwrap_or("").trim().to_string()));
+            }
+            None
+        } else {
+            None
+        };
+        if let Some(n) = name {
+            let k = format!("{section}.{n}");
+            let c = seen.entry(k.clone()).or_insert(0);
+            *c += 1;
+            let key = if *c > 1 { format!("{k}#{c}") } else { k };
+            rows.push((key, body.to_string()));
+        }
+    }
+    rows
+}
+
+/// Compare the regenerated shape of std/dict.qv with the hand-maintained one and NAME what
+/// changed (the kernel-checked statement is `C19.dict_shape_matches`; this is its explanation).
+fn check_shape(ev: &mut Ev) {
+    let dir = qverif::lean_dir();
+    let (Ok(generated), Ok(model)) = (
+        std::fs::read_to_string(format!("{dir}/QuiverModel/Generated/DictShape.lean")),
+        std::fs::read_to_string(format!("{dir}/QuiverModel/Core/DictShape.lean")),
+    ) else {
+        ev.hit("shape:files-missing");
+        return;
+    };
+    let g = shape_rows(&generated);
+    let m = shape_rows(&model);
+    ev.set_extra("dict_shape_rows", json!({"generated": g.len(), "model": m.len()}));
+    let gm: BTreeMap<&String, &String> = g.iter().map(|(k, v)| (k, v)).collect();
+    let mm: BTreeMap<&String, &String> = m.iter().map(|(k, v)| (k, v)).collect();
+    let report = |ev: &mut Ev, name: &str, what: String, grow: Option<&String>, mrow: Option<&String>| {
+        ev.violation(
+            &format!("kind=shape def={name}"),
+            &format!("std/dict.qv no longer has the shape M-Dict was written against — {name}: {what}"),
+            json!({
+                "broken": "theorem C19.dict_shape_matches (Generated/DictShape.lean, regenerated from std/dict.qv by gen_dictshape, = QM.Dict.modelShape): the model is a hand translation of the OLD source; every C19.* theorem is about that model",
+                "definition": name,
+                "what": what,
+                "source_row": grow,
+                "model_row": mrow,
+            }),
+            false,
+        );
+    };
+    let mut differs = false;
+    for (k, v) in &gm {
+        match mm.get(k) {
+            None => {
+                differs = true;
+                report(ev, k, "is in the source but not in the model's table (new definition / export / type)".into(), Some(v), None);
+            }
+            Some(w) if w != v => {
+                differs = true;
+                // say which column moved
+                let col = ["typeParams", "param", "branches", "callees", "ints", "skeleton"]
+                    .iter()
+                    .find(|c| {
+                        let f = |r: &str| r.split(&format!("{c} := ")).nth(1).map(|x| x.split(", ").next().unwrap_or("").to_string());
+                        let whole = |r: &str| r.split(&format!("{c} := ")).nth(1).map(|x| x.to_string());
+                        if **c == "skeleton" { whole(v) != whole(w) } else { f(v) != f(w) && whole(v) != whole(w) }
+                    })
+                    .copied()
+                    .unwrap_or("row");
+                report(ev, k, format!("differs from the model's table (first differing column: {col})"), Some(v), Some(w));
+            }
+            _ => {}
+        }
+    }
+    for (k, w) in &mm {
+        if !gm.contains_key(k) {
+            differs = true;
+            report(ev, k, "is in the model's table but no longer in the source".into(), None, Some(w));
+        }
+    }
+    if !differs && g.iter().map(|x| &x.0).ne(m.iter().map(|x| &x.0)) {
+        report(ev, "order", "the definitions appear in a different order".into(), None, None);
+    }
+    ev.hit(if differs { "shape:differs" } else { "shape:matches" });
+}
+
 fn history_json(h: &History) -> serde_json::Value {
     json!({
         "kind": h.kind,
@@ -1629,6 +1738,9 @@ fn main() {
             }
         }
     }
+
+    // 0. the shape of the live std/dict.qv against the table the model was written against
+    check_shape(&mut ev);
 
     // 1. regression corpus first
     let corpus_dir = "/verif/corpus/C19";
